@@ -675,7 +675,13 @@ def run_C06(pid, tier, seed, model_ok=True):
                     x = mt[i] if i < len(mt) else '<missing>'
                     y = norm_dls(x, tr[i]) if i < len(tr) else '<missing>'
                     if x != y:
-                        a['divergences'].append((name, i, x, y, iops, header + ['http on']))
+                        if i < len(mops) and re.match(r'op (update|check) \S+ err\b', mops[i]) and ' hb=' in iops[i] and x.split(' ')[0] != y.split(' ')[0]:
+                            # the body served is not a well-formed answer (the model's reader - JsonText.resp_of_body /
+                            # Json.resp_of_json - rejects it), yet the call did not report the failed check: the input is here
+                            a['monitor_fail'].append((name, i, 'real HTTP: C06: the served body (%s) is not a well-formed patch-check answer, but the call answered %s instead of %s' % (
+                                iops[i].split(' hb=')[1].split()[0], y.split(' ')[0][4:], x.split(' ')[0][4:]), iops, header + ['http on']))
+                        else:
+                            a['divergences'].append((name, i, x, y, iops, header + ['http on']))
                         break
             pops = [gen.parse_op(o) for o in mops]
             sts = [parse_line(l) for l in tr]
@@ -1306,6 +1312,16 @@ def run_C17(pid, tier, seed, model_ok=True):
                         lines = [al.init] + al.seq(PFX[stt])
                         hs.append((name, lines + ['t0 ' + al.ops[uk][0]] + ['t1 ' + x for x in oops] + ['order ' + order, 'op nextnum']))
                         meta[name] = (len(lines), [[al.ops[uk][0]], oops])
+        # "one failure event, sent once": a queued failure event and TWO update attempts overlapping on different threads
+        # (the app's own update() while the automatic one is still running)
+        queued = {}
+        for uk in ('upnone', 'u2'):
+            for oi, order in enumerate(sched_orders(2) if tier != 'quick' else sched_orders(2)[::2]):
+                name = 'c17q_%s_%d' % (uk, oi)
+                lines = [al.init] + al.seq(PFX['boot1']) + ['op failure']
+                hs.append((name, lines + ['t0 ' + al.ops[uk][0], 't1 ' + al.ops['upnone'][0], 'order ' + order, 'op nextnum']))
+                meta[name] = (len(lines), [[al.ops[uk][0]], [al.ops['upnone'][0]]])
+                queued[name] = 1
         model, impl, ex = run_both(header, hs, work, impl_only=not model_ok, lockcheck=True)
         ex, lw = unlocked_writes(ex, dict(hs), header)
         a['monitor_fail'] += lw
@@ -1320,8 +1336,14 @@ def run_C17(pid, tier, seed, model_ok=True):
                 a['extras'].append('C17 schedules: incomplete implementation trace for %s' % name)
                 continue
             n += 1
-            for msg in sched_event_faults(parse_line(tr[meta[name][0]]), meta[name][1]):
+            post = parse_line(tr[meta[name][0]])
+            for msg in sched_event_faults(post, meta[name][1]):
                 a['monitor_fail'].append((name, len(ops) - 1, msg, ops, header))
+            if name in queued:
+                sent = [x for x in post['net'] if x.startswith('E:F.')]
+                if len(sent) != queued[name]:
+                    a['monitor_fail'].append((name, len(ops) - 1, 'C17: %d failure event was queued and two update attempts overlapped: it was sent %d time(s) (%s)' % (
+                        queued[name], len(sent), sent), ops, header))
         a['evaluations'] += n
         a['dist'] = dict(a.get('dist', {}), update_vs_launch_report_schedules=n)
         a['traces'] = a.get('traces', 0) + len(impl)
@@ -1619,6 +1641,13 @@ def json_mutants(rnd, n):
             doc = J.loads(J.dumps(sj))
             doc['queued_events'] = [dict(ev, timestamp=ts, patch_number=i + 1) for i in range(cnt)]
             outs.append(('sj', J.dumps(doc).encode()))
+    # unreadable files made of long runs of multi-byte characters, shifted so that EVERY byte offset falls inside a
+    # character in one of them: whatever an error path cuts, quotes or measures, it meets a non-boundary
+    for which in ('pj', 'sj'):
+        for ch in ('\u00e9', '\u65e5', '\U0001F600'):
+            for shift in range(4):
+                outs.append((which, (' ' * shift + '{"k":"' + ch * 150 + '"').encode('utf-8')))               # torn
+                outs.append((which, (' ' * shift + '{"' + ch * 40 + '":"' + ch * 120 + '"}').encode('utf-8')))  # wrong schema
     for _ in range(n):
         which = rnd.choice(['pj', 'sj'])
         doc = J.loads(J.dumps(pj if which == 'pj' else sj))
@@ -1675,7 +1704,7 @@ def run_C13(pid, tier, seed, model_ok=True):
             ctx.add_blob('mal%d' % i, data)
             pre = al.seq(rnd.choice([PFX['good1pend2'], PFX['good1boot2'], PFX['boot1'], ()]))
             tail = rnd.sample(api, 5)
-            if i < 14:      # the extreme-timestamp documents: make sure the queue is actually reported
+            if i < 14:      # the extreme-timestamp documents (the first 14): make sure the queue is actually reported
                 tail = [al.ops['upnone'][0]] + tail
             # patches_state.json: the model reads the bytes itself (JsonState.pj_of_file) - compared, not only exercised
             (hs_pjtext if which == 'pj' else hs_impl).append(('mal%d' % i, [al.init] + pre + ['op dmg raw%s @mal%d' % (which, i)] + tail + ['op kill', al.init] + rnd.sample(api, 4)))
